@@ -113,7 +113,7 @@ func doOp(w *world, kind, table, key string) error {
 }
 
 func c01WUnits(thorough bool) []*explore.Unit {
-	var units []*explore.Unit
+	units := cacheRegionsUnits(thorough)
 	bounds := []string{"+", ",", "-", "b", "b\x00"}
 	var layouts [][]string
 	layouts = append(layouts, nil)
@@ -233,7 +233,7 @@ func c01WUnit(p c01WParams) *explore.Unit {
 // ---- C20 / C19 on the wire
 
 func c20WUnits(thorough bool) []*explore.Unit {
-	var units []*explore.Unit
+	units := cacheRegionsUnits(thorough)
 	for _, n := range []int{2, 3} {
 		n := n
 		var w *world
@@ -526,6 +526,108 @@ func c12WUnits(thorough bool) []*explore.Unit {
 					if cl.Counters["t/"+k] != 1 {
 						return &explore.Finding{Class: "call-executed-more-than-once", Msg: fmt.Sprintf("counter of %q is %d", k, cl.Counters["t/"+k])}
 					}
+				}
+				return nil
+			}
+			units = append(units, u)
+		}
+	}
+	return units
+}
+
+// ---- CacheRegions (tier L): after the prefetch every key routes from the cache
+
+func cacheRegionsUnits(thorough bool) []*explore.Unit {
+	var units []*explore.Unit
+	layouts := [][]string{nil, {"m"}, {"b", "m"}, {",", "a", "m\x00"}}
+	for li, sp := range layouts {
+		for _, concurrent := range []bool{false, true} {
+			sp, concurrent := sp, concurrent
+			var w *world
+			var errs []error
+			var cacheErr error
+			var scansAfter int
+			keys := []string{"", "\x00", "+", ",", "a", "b", "c", "m", "m\x00", "z", "\xff"}
+			b := 0
+			if concurrent {
+				b = 1
+				if thorough {
+					b = 2
+				}
+			}
+			u := &explore.Unit{Name: fmt.Sprintf("cacheregions|layout=%d|concurrent-get=%v", li, concurrent), Bound: b, Opt: vrt.Options{MaxSteps: 80000}}
+			u.Body = func() {
+				cl := sim.NewCluster("rs0:1")
+				cl.AddTable("t", sp, []string{"rs1:1"})
+				cl.AddTable("t1", []string{"b"}, []string{"rs2:1"})
+				cl.AddTable("s", nil, []string{"rs2:1"})
+				w = newWorld(cl)
+				errs = nil
+				fin := make(chan int, 2)
+				n := 1
+				if concurrent {
+					n = 2
+					vrt.GoNamed("h:getter", func() {
+						g, _ := hrpc.NewGetStr(context.Background(), "t", "m")
+						_, err := w.client.Get(g)
+						if err != nil {
+							errs = append(errs, err)
+						}
+						vrt.Send(fin, 1)
+					})
+				}
+				vrt.GoNamed("h:prefetch", func() {
+					cacheErr = w.client.CacheRegions([]byte("t"))
+					vrt.Send(fin, 0)
+				})
+				for i := 0; i < n; i++ {
+					vrt.Recv(fin)
+				}
+				vrt.Sleep(time.Minute)
+				base := len(cl.MetaScans)
+				for _, k := range keys {
+					g, _ := hrpc.NewGetStr(context.Background(), "t", k)
+					r, err := w.client.Get(g)
+					if err == nil && (len(r.Cells) != 1 || string(r.Cells[0].Value) != "v:"+k) {
+						err = fmt.Errorf("wrong value for %q", k)
+					}
+					if err != nil {
+						errs = append(errs, err)
+					}
+				}
+				scansAfter = len(cl.MetaScans) - base
+				w.client.Close()
+				vrt.Sleep(10 * time.Minute)
+			}
+			u.Check = func(res *vrt.Result) *explore.Finding {
+				if f := baseFinding(res); f != nil {
+					return f
+				}
+				if res.Deadlock {
+					return &explore.Finding{Class: "request-blocked", Msg: fmt.Sprintf("%v", res.Blocked)}
+				}
+				if cacheErr != nil {
+					return &explore.Finding{Class: "cacheregions-failed", Msg: cacheErr.Error()}
+				}
+				if len(errs) > 0 {
+					return &explore.Finding{Class: "request-failed-on-healthy-cluster", Msg: fmt.Sprintf("%v", errs)}
+				}
+				for _, a := range w.cl.Attempts {
+					if a.Outcome == sim.ClsNSRE {
+						return &explore.Finding{Class: "request-sent-to-region-or-server-not-owning-the-key", Msg: fmt.Sprintf("%+v", a)}
+					}
+				}
+				if scansAfter != 0 {
+					return &explore.Finding{Class: "known-region-looked-up-again-in-meta", Msg: fmt.Sprintf("%d meta lookups after the whole table had been prefetched", scansAfter)}
+				}
+				if d := w.cl.Dials["rs1:1"]; d != 1 {
+					return &explore.Finding{Class: "server-dialled-more-often-than-needed", Msg: fmt.Sprintf("rs1:1 dialled %d times for %d prefetched regions", d, len(sp)+1)}
+				}
+				if m := w.cl.MaxOpen["rs1:1"]; m > 1 {
+					return &explore.Finding{Class: "two-connections-open-to-one-server", Msg: fmt.Sprint(m)}
+				}
+				if cb := clientBlocked(res); len(cb) > 0 {
+					return &explore.Finding{Class: "client-thread-left-after-close", Msg: fmt.Sprintf("%v", cb)}
 				}
 				return nil
 			}
